@@ -14,6 +14,8 @@
 EXTENDS DateTime
 
 DowOfCycleDay(n) == (n + 6) % 7
+\* week day of the first day of month m in year-in-cycle y (a constant table, evaluated once)
+MonthStartDow == [yTab \in 0..399 |-> [mTab \in 1..12 |-> DowOfCycleDay(DBYTab[yTab] + Cum(IsLeap(yTab))[mTab])]]
 \* day of the month, read off the notation's definition
 MDayDecl(m, w, d, yic) ==
   LET first == DBYTab[yic] + Cum(IsLeap(yic))[m]
@@ -22,8 +24,7 @@ MDayDecl(m, w, d, yic) ==
      ELSE CHOOSE k \in hits : Cardinality({j \in hits : j < k}) = w - 1
 \* the same by arithmetic (model-checked equal to MDayDecl on all 420 notations x 400 years by MC_Rule)
 MDayArith(m, w, d, yic) ==
-  LET first == DBYTab[yic] + Cum(IsLeap(yic))[m]
-      d1 == 1 + ((d - DowOfCycleDay(first)) % 7)
+  LET d1 == 1 + ((d - MonthStartDow[yic][m]) % 7)
       dd == d1 + 7 * (w - 1)
   IN IF dd > DaysInMonth(IsLeap(yic), m) THEN dd - 7 ELSE dd
 \* zero-based day of the year; 365 in a common year is January 1st of the next year
@@ -48,17 +49,28 @@ RelA(r, y) == (RuleDoy(r.sd, y) - RuleDoy(r.ed, y)) * 86400 + DD(r)             
 RelB(r, y) == (DBYTab[y] + RuleDoy(r.ed, y) - DBYTab[y + 1] - RuleDoy(r.sd, (y + 1) % 400)) * 86400 - DD(r)      \* E(y) - S(y+1)
 RelC(r, y) == (DBYTab[y] + RuleDoy(r.sd, y) - DBYTab[y + 1] - RuleDoy(r.ed, (y + 1) % 400)) * 86400 + DD(r)      \* S(y) - E(y+1)
 CycleYears == 0..399
+Mixed(S) == (\E x \in S : x < 0) /\ (\E x \in S : x > 0)
+\* everything the specification needs to know about a rule over the whole cycle, computed once per rule:
+\* the sets of values taken by the three order relations (a handful of distinct values each)
 RuleSummary(r) ==
-  [north |-> \A y \in CycleYears : RelA(r, y) <= 0 /\ RelB(r, y) <= 0,     \* S(y) <= E(y) <= S(y+1) every year
-   south |-> \A y \in CycleYears : RelA(r, y) >= 0 /\ RelC(r, y) <= 0,     \* E(y) <= S(y) <= E(y+1) every year
-   coinc |-> \E y \in CycleYears : RelA(r, y) = 0,
-   startFirst |-> \A y \in CycleYears : RelA(r, y) <= 0]                  \* S(y) <= E(y) every year (orientation of any consistent rule)
-NoSummary == [north |-> FALSE, south |-> FALSE, coinc |-> FALSE, startFirst |-> FALSE]
+  LET ds == [y \in CycleYears |-> RuleDoy(r.sd, y)]
+      de == [y \in CycleYears |-> RuleDoy(r.ed, y)]
+      dd == DD(r)
+      A == {(ds[y] - de[y]) * 86400 + dd : y \in CycleYears}                                                    \* S(y) - E(y)
+      BB == {(DBYTab[y] + de[y] - DBYTab[y + 1] - ds[(y + 1) % 400]) * 86400 - dd : y \in CycleYears}          \* E(y) - S(y+1)
+      CC == {(DBYTab[y] + ds[y] - DBYTab[y + 1] - de[(y + 1) % 400]) * 86400 + dd : y \in CycleYears}          \* S(y) - E(y+1)
+  IN [north |-> (\A a \in A : a <= 0) /\ (\A b \in BB : b <= 0),      \* S(y) <= E(y) <= S(y+1) every year
+      south |-> (\A a \in A : a >= 0) /\ (\A c \in CC : c <= 0),      \* E(y) <= S(y) <= E(y+1) every year
+      coinc |-> 0 \in A,
+      startFirst |-> \A a \in A : a <= 0,                              \* orientation of any consistent rule
+      consistent |-> ~Mixed(A) /\ ~Mixed(BB) /\ ~Mixed(CC)]             \* C11: no order relation ever changes sign
+NoSummary == [north |-> FALSE, south |-> FALSE, coinc |-> FALSE, startFirst |-> FALSE, consistent |-> FALSE]
 Interleaves(sum) == sum.north \/ sum.south
 Degenerate(sum) == sum.north /\ sum.south
 CoincidentSouth(sum) == sum.south /\ ~sum.north /\ sum.coinc              \* known finding K2
 
 \* ---- C11: the constructor ----
+\* the statement, literally, year by year (the summary's `consistent` is model-checked equal to it by MC_Rule)
 Flips(r, Rel(_, _)) == (\E y \in CycleYears : Rel(r, y) < 0) /\ (\E y \in CycleYears : Rel(r, y) > 0)
 Consistent(r) == ~Flips(r, RelA) /\ ~Flips(r, RelB) /\ ~Flips(r, RelC)
 OffsetOK(o) == -25 * 3600 < o /\ o < 26 * 3600
@@ -68,8 +80,9 @@ RuleErrs(r) ==
   \cup (IF ~OffsetOK(r.dst.off) THEN {"TransitionRule.InvalidDstUtcOffset"} ELSE {})
   \cup (IF ~(TimeOK(r.st) /\ TimeOK(r.et)) THEN {"TransitionRule.InvalidDstStartEndTime"} ELSE {})
 \* consistency is only defined (and only decided) once the windows hold
-RuleVerdict(r) == LET e == RuleErrs(r) IN
-  IF e # {} THEN Out({}, e) ELSE IF Consistent(r) THEN OutOk(<<>>) ELSE OutErr("TransitionRule.InconsistentRule")
+RuleVerdictS(r, sum) == LET e == RuleErrs(r) IN
+  IF e # {} THEN Out({}, e) ELSE IF sum.consistent THEN OutOk(<<>>) ELSE OutErr("TransitionRule.InconsistentRule")
+RuleVerdict(r) == RuleVerdictS(r, RuleSummary(r))
 
 \* ---- C04: the type in force ----
 YearInGuard(c, yic) == /\ (c > -5368710 \/ (c = -5368710 /\ yic >= 354))        \* i32::MIN + 2
